@@ -155,11 +155,151 @@ def run(chk, tier, seed):
         total += len(cases)
         chk.sample(dict(kind="TLC behaviour replayed on KSI_TreeBuilder", cfg=name, maxLevel=cases[len(cases) // 2]["maxLevel"],
                         offered=cases[len(cases) // 2]["offered"], root=cases[len(cases) // 2]["root"]))
-    chk.add(evaluations=total, distinct_nontrivial=nontriv, exhaustive=True,
+    nbs = block_signer(chk, tier, seed)
+    chk.add(block_signer_histories=nbs)
+    chk.add(evaluations=total + nbs, distinct_nontrivial=nontriv + nbs, exhaustive=True,
             rule="every complete behaviour of TreeBuilder.tla within the bounds (leaf kinds x level alphabets x maximum-level settings, refusals "
                  "at every point, uniform trees up to 33/70 leaves) replayed on the real builder; non-trivial = at least two accepted leaves")
-    chk.assumptions += ["block-signer half (masking, per-leaf metadata, reset == new, per-leaf signatures) is checked with C07's transport -- see DESIGN",
+    chk.assumptions += ["block signer: histories of BlockSigner.tla (<= 3/4 leaves per block, levels {0,2}, metadata yes/no, masked yes/no, one reset at any point) over the real blocking TCP client with the reference aggregator; quick replays 700 sampled histories",
                         "leaf processors other than the block signer's are not modelled"]
+
+
+# ------------------------------------------------------------------ block signer (second half of C16)
+
+def bs_cases(chk, tier):
+    cfg = os.path.join(vlib.scratch("c16bs"), "bs.cfg")
+    with open(cfg, "w") as f:
+        f.write("SPECIFICATION Spec\nCONSTANTS\n MaxLeaves = %d\n MaxResets = 1\n Levels = {0, 2}\nINVARIANTS\n MetadataIsFirstLink\n MaskChainAdvances\n Emit\nPROPERTY ResetIsNew\n" % (3 if tier == "quick" else 4))
+    r = vlib.run_tlc("MC_BlockSigner.tla", cfg, timeout=2400, xmx="16g")
+    if r.violation:
+        raise vlib.CheckError("BlockSigner.tla violates %s:\n%s" % (r.violation, r.out[-3000:]))
+    vlib.tlc_must_pass(r, "MC_BlockSigner"); chk.tlc(r, "blocksigner")
+    return [json.loads(json.loads(l)[5:]) for l in r.out.splitlines() if l.startswith('"CASE ')]
+
+
+def parse_first_chain(sig):
+    """(input hash, [ksi.Link ...] with kind 'meta' carrying the raw metadata payload) of the first aggregation chain of a serialized signature"""
+    body = ksi.parse_tlvs(sig)[0][3]
+    ch = max(ksi.find(body, 0x0801), key=lambda c: len(ksi.find(c, 3)))          # the lowest chain has the longest chain index (the builder appends it last)
+    inp = ksi.find(ch, 5)[0]; links = []
+    for t, _, _, p, _ in ksi.parse_tlvs(ch):
+        if t not in (7, 8):
+            continue
+        corr = 0; kind = data = None
+        for tt, _, _, pp, _ in ksi.parse_tlvs(p):
+            if tt == 1: corr = int.from_bytes(pp, "big")
+            elif tt == 2: kind, data = "imprint", pp
+            elif tt == 3: kind, data = "legacy", pp
+            elif tt == 4: kind, data = "meta", pp
+        links.append(ksi.Link(t == 7, kind, data, corr))
+    return inp, links
+
+
+def want_first(c, i):
+    return c["first"][i] if isinstance(c["first"], list) else c["first"][str(i + 1)]
+
+
+def block_signer(chk, tier, seed):
+    import random, netsim, wire
+    rng = random.Random(seed)
+    cases = bs_cases(chk, tier)
+    # the last "closesign" of every history is the one to replay (earlier segments are prefixes of other histories)
+    if tier == "quick":
+        rng.shuffle(cases); cases = cases[:700]
+    exe = netsim.build(); s = netsim.Session(exe); n = 0
+    prev0 = ksi.fake_imprint(1, b"prev-leaf"); iv = bytes(range(32))
+    def signer(raw):
+        f = wire.request_fields(raw); rid = int.from_bytes(f["payload"].get(1, b""), "big"); lv = int.from_bytes(f["payload"].get(3, b""), "big")
+        signer.seen = (f["payload"].get(2), lv)
+        return wire.sign_reply(dict(what="resp", mac="ok", hdr="ok", ver="v2", status="0", id="same", hash="same", cons="ok", body="full"), random.Random(7), rid, f["payload"].get(2), lv, None)
+    try:
+        s.cmd("BNEW")
+        for c in cases:
+            ops = c["ops"]; masked = ops[0]["masked"]; n += 1
+            shape = "masked=%s:%s" % (masked, ",".join(o["op"][0] + (("%d%s" % (o["lvl"], "m" if o["md"] else "")) if o["op"] == "add" else "") for o in ops[1:]))
+            payload = dict(case=c)
+            out = s.cmd("BSNEW 1 %s %s" % ((prev0.hex(), iv.hex()) if masked else ("-", "-")))
+            if "rc=0x0" not in out[-1]:
+                chk.violation("blocksigner:new-failed", "KSI_BlockSigner_new failed: %s" % out[-1], payload); continue
+            seg = []; bad = None
+            for o in ops[1:]:
+                if o["op"] == "add":
+                    h = ksi.imprint(1, b"leaf-%d-%d" % (n, len(seg))); cid = (b"client-%d" % len(seg)) if o["md"] else None
+                    out = s.cmd("BSADD %s %d %s" % (h.hex(), o["lvl"], (cid + b"\0").hex() if cid else "-"))
+                    if "rc=0x0" not in out[-1]:
+                        bad = "addLeaf refused: %s" % out[-1]; break
+                    seg.append((h, o["lvl"], cid))
+                elif o["op"] == "reset":
+                    out = s.cmd("BSRESET"); seg = []
+                    if "rc=0x0" not in out[-1]:
+                        bad = "reset failed: %s" % out[-1]; break
+                    pv = netsim.kv(s.cmd("BSPREV")[-1]).get("prev")
+                    if pv != (prev0.hex() if masked else "-"):
+                        bad = "after reset the previous-leaf value is %s, a new signer has %s" % (pv, prev0.hex() if masked else "-"); break
+                elif o["op"] == "closesign":
+                    signer.seen = None
+                    from checks import c19
+                    r = c19.dialogue(s, "BSCLOSE", signer, ep=0)
+                    if "rc=0x0" not in r:
+                        bad = "closeAndSign failed: %s" % r; break
+            if bad is None:
+                # the segment since the last reset / new is signed: check every leaf
+                root_req = signer.seen
+                if root_req is None or root_req[1] != c["root"]:
+                    bad = "root level on the wire %s, BlockSigner.tla says %d" % (root_req and root_req[1], c["root"])
+                prev = prev0
+                for i, (h, lvl, cid) in enumerate(seg):
+                    if bad: break
+                    out = s.cmd("BSSIG %d" % i); f = netsim.kv(out[-1])
+                    if "sig" not in f:
+                        bad = "no signature for leaf %d: %s" % (i + 1, out[-1]); break
+                    sig = bytes.fromhex(f["sig"])
+                    v = netsim.kv(s.cmd("VERIFY INTERNAL %s - - 0 %s %d" % (sig.hex(), h.hex(), lvl))[-1])
+                    if v.get("rc") != "0x0" or v.get("res") != "0":
+                        bad = "signature of leaf %d does not verify for the leaf's hash and level: %s" % (i + 1, v); break
+                    inp, links = parse_first_chain(sig)
+                    if len(seg) == 1 and not want_first(c, i):
+                        continue                       # a block of one bare leaf: the aggregator's signature is the leaf's signature, no chain is prepended
+                    if inp != h:
+                        bad = "input hash of leaf %d's signature is not the leaf hash" % (i + 1); break
+                    want = want_first(c, i)
+                    cur, cl = h, 0          # in the signature the leaf's own level is carried by the first link's level correction
+                    for k, kind in enumerate(want):
+                        l = links[k] if k < len(links) else None
+                        if l is None or l.left or l.corr != (lvl if k == 0 else 0):
+                            bad = "leaf %d link %d: expected the %s as left sibling with level correction %d" % (i + 1, k + 1, kind, lvl if k == 0 else 0); break
+                        if kind == "meta":
+                            if l.kind != "meta" or (cid + b"\0") not in l.data:
+                                bad = "leaf %d: link %d should carry the caller's metadata (%s), it is %s" % (i + 1, k + 1, cid, l.kind); break
+                        else:
+                            mask = ksi.imprint(1, prev + iv)
+                            if l.kind != "imprint" or l.data != mask:
+                                bad = "leaf %d: link %d should be the blinding mask H(prevLeaf || iv)" % (i + 1, k + 1); break
+                        cur, cl = ksi.aggregate([l], cur, cl, 1)
+                        if kind == "mask":
+                            prev = cur
+                    if bad: break
+                    if want and cl != (c["clvl"][i] if isinstance(c["clvl"], list) else c["clvl"][str(i + 1)]):
+                        bad = "leaf %d enters the tree at level %d, BlockSigner.tla says %s" % (i + 1, cl, c["clvl"]); break
+                    r = ksi.aggregate(links, h, 0, 1)
+                    if r is None or (r[0], r[1]) != root_req:
+                        bad = "chain of leaf %d recomputes %s, the signed root on the wire is %s" % (i + 1, r and (r[0].hex()[:16], r[1]), (root_req[0].hex()[:16], root_req[1])); break
+                if bad is None and masked:
+                    pv = netsim.kv(s.cmd("BSPREV")[-1]).get("prev")
+                    if pv != prev.hex():
+                        bad = "previous-leaf value after the block is %s, the mask chain gives %s" % (pv, prev.hex())
+            if bad:
+                after_reset = any(o["op"] == "reset" for o in ops)
+                import re as _re
+                cls = _re.sub(r"leaf \d+|link \d+|\(b'[^']*'\)|\d+", "", bad.split(",")[0])[:70].strip().replace("  ", " ")
+                chk.violation("blocksigner:%s:%s" % ("after-reset" if after_reset else "new", cls), "block signer (%s): %s" % (shape, bad), dict(case=c, log=[x[:300] for x in s.log[-12:]]))
+    except netsim.Died as e:
+        chk.violation("crash:blocksigner", "libksi crashed in the block signer\n%s" % str(e)[-2500:], dict(log=[x[:300] for x in s.log[-30:]])); s = None
+    if s is not None:
+        rc, err = s.close()
+        if rc != 0:
+            chk.violation("crash:blocksigner:exit", "driver exited rc=%s (leak or sanitizer report)\n%s" % (rc, err[-2500:]), {})
+    return n
 
 
 def replay(chk, path):
